@@ -1721,10 +1721,13 @@ func makePointerArshaler(t reflect.Type) *arshaler {
 	init := func() {
 		valFncs = lookupArshaler(t.Elem())
 	}
+	// A cycle consisting only of pointers and interfaces never increases
+	// the JSON nesting depth, so always check such pointers for cycles.
+	mayCycleWithoutDepth := t.Elem().Kind() == reflect.Pointer || t.Elem().Kind() == reflect.Interface
 	fncs.marshal = func(enc *jsontext.Encoder, va addressableValue, mo *jsonopts.Struct) error {
 		// Check for cycles.
 		xe := export.Encoder(enc)
-		if xe.Tokens.Depth() > startDetectingCyclesAfter {
+		if xe.Tokens.Depth() > startDetectingCyclesAfter || (mayCycleWithoutDepth && !va.IsNil()) {
 			if err := visitPointer(&xe.SeenPointers, va.Value); err != nil {
 				return newMarshalErrorBefore(enc, t, err)
 			}
